@@ -56,6 +56,61 @@ def rule_b1(ctx, scope: Set[str]) -> None:
                     )
 
 
+REORDER_CALLS = {"sorted", "reversed", "shuffle", "sample", "argsort", "permutation"}
+
+
+def rule_submission_order(ctx, scope: Set[str], rule_id: str = "C06-B1") -> None:
+    """Results of a parallel map are consumed by position, so the jobs must be submitted in the order of the input -
+    or, when they are scheduled in another order P (sorted by size ...), the results must be put back with a recognised
+    inverse: `out[P[k]] = R[k]` in a loop, or `[r for _, r in sorted(zip(P, R))]`.  `[R[i] for i in P]` applies the
+    permutation a second time."""
+    prog = ctx.prog
+    ctx.rule(rule_id, "parallel maps return in submission order" if rule_id == "C06-B1" else "jobs of a parallel map are submitted in input order, or the results are put back with a recognised inverse of the schedule", 0)
+    for q in sorted(scope):
+        f = prog.functions.get(q)
+        if f is None or not q.startswith("synrbl."):
+            continue
+        for c in calls(f):
+            if unparse(c.func).split(".")[-1] != "Parallel":
+                continue
+            outer = getattr(c, "_parent", None)
+            if not (isinstance(outer, ast.Call) and outer.func is c and outer.args and isinstance(outer.args[0], (ast.GeneratorExp, ast.ListComp))):
+                continue
+            gen = outer.args[0].generators[0]
+            it = gen.iter
+            sched = None
+            if isinstance(it, ast.Name):
+                for _st, v, _i in assignments_to(f, it.id):
+                    if any(isinstance(x, ast.Call) and unparse(x.func).split(".")[-1] in REORDER_CALLS for x in ast.walk(v)):
+                        sched = it.id
+            elif any(isinstance(x, ast.Call) and unparse(x.func).split(".")[-1] in REORDER_CALLS for x in ast.walk(it)):
+                sched = unparse(it)
+            if sched is None:
+                continue
+            # the result list
+            stmt = getattr(outer, "_parent", None)
+            rname = stmt.targets[0].id if isinstance(stmt, ast.Assign) and isinstance(stmt.targets[0], ast.Name) else None
+            verdict, why = "unknown", "jobs are submitted in the order of %s" % sched
+            if rname:
+                for n in own_nodes(f.node):
+                    # wrong: [R[i] for i in P]
+                    if isinstance(n, ast.ListComp) and len(n.generators) == 1 and isinstance(n.generators[0].iter, ast.Name) and n.generators[0].iter.id == sched and isinstance(n.elt, ast.Subscript) and isinstance(n.elt.value, ast.Name) and n.elt.value.id == rname and unparse(n.elt.slice) == unparse(n.generators[0].target):
+                        verdict, why = "bad", "the results %s, computed in the order of the schedule %s, are indexed by that schedule again (%s): this applies the permutation twice instead of undoing it" % (rname, sched, unparse(n)[:50])
+                    # right: out[P[k]] = R[k] / for i, r in zip(P, R): out[i] = r
+                    if isinstance(n, ast.For) and isinstance(n.iter, ast.Call) and getattr(n.iter.func, "id", "") == "zip" and {unparse(a) for a in n.iter.args} >= {sched, rname} and isinstance(n.target, ast.Tuple):
+                        tn = {unparse(a): t for a, t in zip(n.iter.args, n.target.elts)}
+                        for st_ in n.body:
+                            if isinstance(st_, ast.Assign) and isinstance(st_.targets[0], ast.Subscript) and unparse(st_.targets[0].slice) == unparse(tn[sched]) and unparse(st_.value) == unparse(tn[rname]) and verdict != "bad":
+                                verdict, why = "ok", "results are stored at their scheduled index (%s)" % unparse(st_)[:40]
+                    if isinstance(n, ast.Call) and getattr(n.func, "id", "") == "sorted" and n.args and isinstance(n.args[0], ast.Call) and getattr(n.args[0].func, "id", "") == "zip" and [unparse(a) for a in n.args[0].args][:2] == [sched, rname] and verdict != "bad":
+                        verdict, why = "ok", "results are sorted back by their scheduled index"
+            ctx.instance(rule_id, "%s: Parallel over the schedule %s - %s" % (q.split("synrbl.", 1)[-1], sched, why), f.loc(c), ok=verdict == "ok")
+            if verdict == "bad":
+                ctx.finding(rule_id, "%s:schedule-not-undone" % q.split("synrbl.", 1)[-1], f.loc(c), why + "; result i then belongs to another input than input i")
+            elif verdict == "unknown":
+                ctx.require(False, "%s submits parallel jobs in a re-ordered sequence (%s) and the way the results are put back is not recognised" % (q, sched))
+
+
 def rule_b2(ctx, pl: Pipeline, rule_id: str = "C06-B2") -> None:
     ctx.rule(rule_id, "ids used as list positions are positional indices of the same list; id->index maps enumerate the list they index", 6)
     prog = ctx.prog
@@ -235,8 +290,8 @@ def _derives_from(f: Func, name: str, root: str, depth: int = 0, seen=None) -> T
     return reach, None
 
 
-def rule_b3(ctx, pl: Pipeline) -> None:
-    ctx.rule("C06-B3", "operands of positional joins derive from the same row list without an intervening filter", 2)
+def rule_b3(ctx, pl: Pipeline, rule_id: str = "C06-B3") -> None:
+    ctx.rule(rule_id, "operands of positional joins derive from the same row list without an intervening filter", 2)
     seen = set()
     for st in pl.stages:
         f = st.callee
@@ -275,13 +330,13 @@ def rule_b3(ctx, pl: Pipeline) -> None:
                     r, flt = _derives_from(f, nm, root)
                     if flt:
                         bad = "%s: %s" % (nm, flt)
-            ctx.instance("C06-B3", "%s: %s" % (f.name, unparse(n)[:80]), f.loc(n), ok=bad is None)
+            ctx.instance(rule_id, "%s: %s" % (f.name, unparse(n)[:80]), f.loc(n), ok=bad is None)
             if bad is not None:
-                ctx.finding("C06-B3", "%s:positional-join:%d" % (f.qualname.split("synrbl.", 1)[-1], len(ops)), f.loc(n), "operands of a positional join are not aligned with the row list (%s)" % bad)
+                ctx.finding(rule_id, "%s:positional-join:%d" % (f.qualname.split("synrbl.", 1)[-1], len(ops)), f.loc(n), "operands of a positional join are not aligned with the row list (%s)" % bad)
 
 
-def rule_b4(ctx, scope: Set[str]) -> None:
-    ctx.rule("C06-B4", "no pipeline-reachable function mutates module/class level containers (lazy-constant idiom excepted) or a mutable default argument", 50)
+def rule_b4(ctx, scope: Set[str], rule_id: str = "C06-B4", class_level: bool = True) -> None:
+    ctx.rule(rule_id, "no pipeline-reachable function mutates module/class level containers (lazy-constant idiom excepted) or a mutable default argument", 50 if rule_id == "C06-B4" else 10)
     prog = ctx.prog
     MUT = {"append", "extend", "update", "add", "insert", "pop", "remove", "clear", "setdefault", "__setitem__"}
     from ..shared import SharedFlow
@@ -382,13 +437,15 @@ def rule_b4(ctx, scope: Set[str]) -> None:
             if cont is not None and ("store into" in why or "mutation of" in why or "() on" in why):
                 okm, whym = memo_complete(f, cont)
                 if okm:
-                    ctx.instance("C06-B4", "%s: %s is a memo table (%s)" % (q.split("synrbl.", 1)[-1], cont, whym), f.loc(n), ok=True)
+                    ctx.instance(rule_id, "%s: %s is a memo table (%s)" % (q.split("synrbl.", 1)[-1], cont, whym), f.loc(n), ok=True)
                     continue
             kept.append((n, why))
         bad = kept
-        ctx.instance("C06-B4", q.split("synrbl.", 1)[-1], f.loc(), ok=not bad, nontrivial=bool(bad) or bool(globals_declared) or f.is_classmethod or bool(sflow.aliases(f)))
+        ctx.instance(rule_id, q.split("synrbl.", 1)[-1], f.loc(), ok=not bad, nontrivial=bool(bad) or bool(globals_declared) or f.is_classmethod or bool(sflow.aliases(f)))
         for n, why in bad:
-            ctx.finding("C06-B4", "%s:shared-state:%s" % (q.split("synrbl.", 1)[-1], why.split()[-1]), f.loc(n), "%s on the pipeline path: results of one reaction can depend on reactions processed before it" % why)
+            ctx.finding(rule_id, "%s:shared-state:%s" % (q.split("synrbl.", 1)[-1], why.split()[-1]), f.loc(n), "%s on the pipeline path: results of one reaction can depend on reactions processed before it" % why)
+    if not class_level:
+        return
     # class-level *empty* mutable containers are shared state waiting to be filled
     classes = {prog.functions[q].cls.qualname: prog.functions[q].cls for q in scope if q in prog.functions and prog.functions[q].cls is not None}
     for cq, cls in sorted(classes.items()):
@@ -399,9 +456,9 @@ def rule_b4(ctx, scope: Set[str]) -> None:
             # registry idiom: only written by a `register` classmethod that is called at import time
             writers = [m.name for m in cls.methods.values() if any(isinstance(n, ast.Attribute) and n.attr == attr for n in own_nodes(m.node))]
             registry = "register" in writers and "build" in writers and set(writers) <= {"register", "build"}
-            ctx.instance("C06-B4", "class-level container %s.%s (registry idiom: %s)" % (cls.name, attr, registry), cls.module.relpath, ok=registry)
+            ctx.instance(rule_id, "class-level container %s.%s (registry idiom: %s)" % (cls.name, attr, registry), cls.module.relpath, ok=registry)
             if not registry:
-                ctx.finding("C06-B4", "%s.%s:class-level-container" % (cq.split("synrbl.", 1)[-1], attr), "%s:%d" % (cls.module.relpath, val.lineno), "%s.%s is an empty mutable container at class level: every instance (every batch, every Validator pass) shares and fills the same object, so results depend on what was processed before" % (cls.name, attr))
+                ctx.finding(rule_id, "%s.%s:class-level-container" % (cq.split("synrbl.", 1)[-1], attr), "%s:%d" % (cls.module.relpath, val.lineno), "%s.%s is an empty mutable container at class level: every instance (every batch, every Validator pass) shares and fills the same object, so results depend on what was processed before" % (cls.name, attr))
     # class-level registries are written at import time only (register() called at module level)
     for m in prog.modules.values():
         if not m.name.startswith("synrbl."):
@@ -702,6 +759,7 @@ def check(ctx) -> None:
     if ctx.tier == "thorough":
         scope = {q for q in ctx.prog.functions if q.startswith("synrbl.")}
     rule_b1(ctx, scope)
+    rule_submission_order(ctx, scope)
     rule_b2(ctx, pl)
     rule_b3(ctx, pl)
     rule_b4(ctx, reach)
